@@ -36,6 +36,9 @@ TECHNIQUE = "Lean 4 invariant proofs over a disposable-heap model + regenerated 
 
 regenerate = pipecheck.regenerate
 
+# stage kinds whose handler does `observer.on_next(x)` and THEN calls a user selector (known finding C03-selector-after-reentrant-dispose)
+SELECTOR_AFTER_ON_NEXT = {"expand_take", "timeout_with_mapper", "window_when", "buffer_when", "window_toggle", "buffer_toggle"}
+
 
 def cases(rng, tier):
     n = fw.tier_scale(tier, 200, 3500)
@@ -48,6 +51,10 @@ def cases(rng, tier):
         for t in pick:
             for early in (False, True):
                 yield {"op": "pipeline", "pipeline": p, "dispose_at": t, "dispose_early": early}
+        # re-entrant dispose: the subscriber disposes from INSIDE its k-th notification
+        nn = len(base["log"])
+        for k in (range(nn) if nn <= per else sorted(rng.sample(range(nn), per))):
+            yield {"op": "pipeline", "pipeline": p, "dispose_at": None, "dispose_early": False, "dispose_in": k}
     for _ in range(fw.tier_scale(tier, 200, 2000)):
         xs = [rng.choice([None, 0, 1, 2, "", False]) for _ in range(rng.randrange(0, 9))]
         k = rng.choice([None] + list(range(0, len(xs) + 2)))
@@ -110,7 +117,7 @@ def impl(case):
         return pipecheck.from_iter_impl(case)
     if case["op"] == "tramp":
         return trampipes.run(case)
-    out = pipes.run(case["pipeline"], dispose_at=case["dispose_at"], dispose_early=case["dispose_early"])
+    out = pipes.run(case["pipeline"], dispose_at=case["dispose_at"], dispose_early=case["dispose_early"], dispose_in=case.get("dispose_in"))
     return {k: out.get(k) for k in ("log", "subs", "cb_times", "disposed_at", "log_len_at_dispose", "cb_len_at_dispose", "escaped")}
 
 
@@ -165,7 +172,7 @@ def bucket(case, out):
         return
     for s in case["pipeline"]["stages"]:
         yield "stage:" + s[0]
-    yield "early" if case["dispose_early"] else "late"
+    yield "in-notification" if case.get("dispose_in") is not None else "early" if case["dispose_early"] else "late"
 
 
 def _subtrees(tree):
@@ -219,12 +226,12 @@ def search(rng, tier, disagreeing):
     for i in range(fw.tier_scale(tier, 1500, 10000)):
         p = pipes.gen_case(rng, 2 if i % 2 else 3, names if i % 4 else None)
         base = pipes.run(p)
-        for t in pipes.event_times(base):
-            for early in (False, True):
-                c = {"op": "pipeline", "pipeline": p, "dispose_at": t, "dispose_early": early}
-                v = oracle(c, impl(c))
-                if v:
-                    return fw.shrink_failure(me, fw.Failure("oracle", c, v))
+        cs = [{"op": "pipeline", "pipeline": p, "dispose_at": t, "dispose_early": early} for t in pipes.event_times(base) for early in (False, True)]
+        cs += [{"op": "pipeline", "pipeline": p, "dispose_at": None, "dispose_early": False, "dispose_in": k} for k in range(min(len(base["log"]), 8))]
+        for c in cs:
+            v = oracle(c, impl(c))
+            if v and not classify(c, v):
+                return fw.shrink_failure(me, fw.Failure("oracle", c, v))
     return None
 
 
@@ -237,12 +244,19 @@ def classify(case, why):
     if case["op"] != "pipeline":
         return None
     idx = [i for i, s in enumerate(case["pipeline"]["stages"]) if s[0] == "subscribe_on"]
-    if not idx:
-        return None
-    j = max(idx)
-    if why.startswith("user callback of stage "):
-        st = int(why.split()[4])
-        return "C03-subscribe-on-deferred" if st < j else None
-    if why.startswith("source "):
-        return "C03-subscribe-on-deferred"
+    if idx:
+        j = max(idx)
+        if why.startswith("user callback of stage "):
+            st = int(why.split()[4])
+            if st < j:
+                return "C03-subscribe-on-deferred"
+        if why.startswith("source "):
+            return "C03-subscribe-on-deferred"
+    # Known finding C03-selector-after-reentrant-dispose: these operators call their selector AFTER observer.on_next(...) returned,
+    # in the same handler; when the subscriber disposed from inside that very on_next the selector still runs (same instant).
+    if case.get("dispose_in") is not None and why.startswith("user callback of stage "):
+        w = why.split()
+        st, t_cb, t_disp = int(w[4]), int(w[7]), int(w[-1])
+        if t_cb == t_disp and case["pipeline"]["stages"][st][0] in SELECTOR_AFTER_ON_NEXT:
+            return "C03-selector-after-reentrant-dispose"
     return None
